@@ -178,6 +178,8 @@ def gen_arg(rng, pname, cname, L, method):
         if r < 0.2:
             return ['str', rng.choice(TOKENS_BAD + ['0xff', '0b1', 'u8=3', 'ue=4', 'float:32=1.5'])]
         n = rng.choice([0, 0, 1, 2, 3, 8, 9, 16, L, max(L - 1, 0), L + 1])
+        if rng.random() < 0.12:
+            return ['bits', util.operand_spec(rng, rng.choice(['0' * 8, '0' * 16, '1' * 8, '0' * 24, '10000000', '00000001']))]      # whole bytes of one value
         return ['bits', util.operand_spec(rng, rb(rng, min(n, 5000)))]
     if pname == 'other':
         if cname == 'Array' and method in ('__and__', '__or__', '__xor__', '__iand__', '__ior__', '__ixor__', '__rand__', '__ror__', '__rxor__'):
@@ -237,7 +239,9 @@ def gen_arg(rng, pname, cname, L, method):
                                ['str', rng.choice(['h', '>2h', '<q', 'bb', 'xx', '', '2', '>', '3e'])], ['raising-iter', [1]], ['float', 1.5]])
         if method == 'pp':
             return rng.choice([['none'], ['str', rng.choice(['bin', 'hex', 'oct', 'bytes', 'bin, hex', 'hex:16', 'bin:0', 'u8', 'float32', 'ue', 'bin, hex, oct',
-                                                              'hex:3', 'uint:0', 'nonsense', '', 'bits', 'bool', 'bin:4, hex:8', 'i5, u5', 'bytes:2, hex', 'e4m3mxfp', 'hex, float:32'])]])
+                                                              'hex:3', 'uint:0', 'nonsense', '', 'bits', 'bool', 'bin:4, hex:8', 'i5, u5', 'bytes:2, hex', 'e4m3mxfp', 'hex, float:32',
+                                                              'hex:0, float', 'float, bin:0', 'uint:24, float', 'floatle, hex', 'f, u8', 'float, float', 'bfloat, hex:0', 'floatne:0, bin',
+                                                              'e5m2mxfp, hex', 'bin:0, oct:0', 'u, hex', 'int, float', 'bytes, float'])]])
         if method in ('read', 'peek'):
             return rng.choice([['int', rng.choice(ints)], ['str', rng.choice(TOKENS_OK + TOKENS_BAD)], ['dtype', ['uint', 8]], ['dtype', ['bytes', 2]], ['dtype', ['ue']],
                                ['dtype', ['bool']]])
@@ -770,6 +774,11 @@ def gen_entry(ctx):
 
 
 DIRECTED = [
+    # a whole-byte pattern searched byte-aligned in data that ends part way through a byte (its last bits could be completed by padding)
+    {'receiver': ['ConstBitStream', '111111110'], 'calls': [['readto', [['bits', ['Bits', '00000000']]], {'bytealigned': ['bool', True]}], ['get:pos', [], {}]]},
+    {'receiver': ['BitStream', '0' * 12], 'calls': [['readto', [['bits', ['str', '0' * 16]]], {'bytealigned': ['bool', True]}], ['find', [['bits', ['Bits', '0' * 16]]], {'bytealigned': ['bool', True]}],
+                                                   ['rfind', [['bits', ['Bits', '0' * 16]]], {'bytealigned': ['bool', True]}], ['get:pos', [], {}]]},
+    {'receiver': ['BitStream', '1' * 8 + '000'], 'lsb0': True, 'calls': [['readto', [['bits', ['Bits', '0' * 8]]], {'bytealigned': ['bool', True]}], ['replace', [['bits', ['Bits', '0' * 8]], ['bits', ['Bits', '1']]], {'bytealigned': ['bool', True]}]]},
     {'receiver': ['BitArray', '0' * 12], 'lsb0': True, 'calls': [['set', [['int', 1], ['range', [0, 12, 2]]], {}]]},
     {'receiver': ['BitArray', '0110' * 4], 'calls': [['overwrite', [['bits', ['self']], ['int', 4]], {}]]},
     {'receiver': ['BitArray', '0110' * 4], 'calls': [['rol', [['int', 3], ['int', 5], ['int', 5]], {}], ['ror', [['int', 3], ['int', 5], ['int', 5]], {}]]},
